@@ -689,7 +689,7 @@ fn check_registration(violations: &mut Vec<serde_json::Value>, tier: &str) -> us
 }
 
 pub fn run(a: &ShardArgs) -> serde_json::Value {
-    let txts = texts(if a.thorough { 4 } else { 3 });
+    let txts = texts(if a.thorough { 5 } else { 3 });
     let es = entries();
     let mut counters = (0usize, 0usize);
     let mut violations = Vec::new();
@@ -703,7 +703,7 @@ pub fn run(a: &ShardArgs) -> serde_json::Value {
         "property": "C19", "tier": a.tier,
         "total_configs": txts.len() * 6, "configs_done": counters.0, "configs_skipped_budget": 0,
         "evaluations": counters.0 + reg, "distinct_nontrivial": counters.1,
-        "rule": format!("a zoo of {} attribute instances on 24 functions for 2 Worlds (sync/async, unit/Result, typed args, slice, #[step] / `step` argument, literal / regex = / expr =, custom Parameter with one and several groups, several attributes on one fn, named group) x every text of <= {} tokens over a 12-token alphabet plus positive / near-miss texts of every entry (prefix, suffix, padding, case) x 3 keywords; non-trivial = lookups that dispatch to a function", es.len(), if a.thorough {4} else {3}),
+        "rule": format!("a zoo of {} attribute instances on 24 functions for 2 Worlds (sync/async, unit/Result, typed args, slice, #[step] / `step` argument, literal / regex = / expr =, custom Parameter with one and several groups, several attributes on one fn, named group) x every text of <= {} tokens over a 12-token alphabet plus positive / near-miss texts of every entry (prefix, suffix, padding, case) x 3 keywords; non-trivial = lookups that dispatch to a function", es.len(), if a.thorough {5} else {3}),
         "exhaustive": true,
         "violations": violations, "samples": samples,
     })
